@@ -77,6 +77,7 @@ type Interp struct {
 	constCache   map[*ssa.Const]Value
 	fmtLenient   bool
 	lastNow      *Term
+	chanSeq      int
 	spec         *specCtx
 	noSpec       bool
 	simpleBlocks map[*ssa.BasicBlock]bool
